@@ -35,14 +35,14 @@ var targets = map[string][]string{
 	"lib/server/ipdb/duid": {"Duid.String"},
 	"lib/server/ipdb/clients": {"NewClients", "Clients.Lookup", "Clients.InjectPermanent", "Clients.Inject", "Clients.injectInternal",
 		"Clients.SetLease", "Clients.Expire", "client.Uip", "client.LeasedUntil"},
-	"lib/arpping":         {"catchARPReply", "Ping"},
+	"lib/arpping":         {"catchARPReply", "Ping", "sendARPPing"},
 	"lib/client/callback": {"dumpScriptConf", "envEntry"},
 	"lib/resolvconf":      {"Run", "update"},
 	"lib/client/dclient": {"catchReply", "sendMessage", "sendSocket", "dclient.Run", "dclient.ResumeClient", "dclient.buildNetconfig", "dclient.runStateDiscovering", "dclient.runStateSelecting",
 		"dclient.runStateBound", "dclient.runStateRenewing", "dclient.runStateRebinding", "dclient.runStatePurgeInterface", "dclient.runStateIfconfig",
 		"dclient.runStateArpCheck", "dclient.panicReset"},
 	"lib/server/leaseopts": {"ParseConfig", "SetClientOverrides", "representable", "ipv4"},
-	"lib/server":          {"New", "duidFromHwAddr", "server.dhcpOptions", "server.Run", "server.arpVerify", "server.getDuid", "server.handleMsg", "server.handleDiscover", "server.handleRequest", "server.sendNACK", "server.sendMsg"},
+	"lib/server":          {"New", "duidFromHwAddr", "server.dhcpOptions", "server.Run", "server.arpVerify", "server.getDuid", "server.handleMsg", "server.handleDiscover", "server.handleRequest", "server.sendNACK", "server.sendMsg", "server.sendUnicast"},
 	"lib/client/verify":   {"verifyCommon", "verifyGenAck", "VerifyOffer", "VerifySelectingAck", "VerifyRenewingAck", "VerifyRebindingAck"},
 	"lib/client/msgtmpl":  {"tmpl.request"},
 	"lib/dhcpmsg": {"Decode", "Message.Assemble", "setU16Int", "setU32Int", "setIPv4", "OptionType", "OptionHostname", "OptionDomainName",
